@@ -50,8 +50,8 @@ def wrapper(kind, depth):
     return out
 
 
-def render(voices, observed, broken=False):
-    """voices: list of dict(vid, kind, const, depth); observed: (vid_a, vid_b)"""
+def render_prog(voices, observed):
+    """voices: list of dict(vid, kind, const, depth); observed: (vid_a, vid_b); returns the coregen.Prog"""
     fns = lib()
     order = ["cnt", "lag"] + [k for k in KINDS if k not in ("cnt", "lag")]
     defs = [fns[k] for k in order]
@@ -74,10 +74,20 @@ def render(voices, observed, broken=False):
             call = Node("mem", call, 1000 + post["pid"])
         body = Node("let", f"c{v['vid']}", call, body)
     dsp = Fn("dsp", [], [], coregen.T(F, F), body, False, True)
-    src = Prog([], defs, dsp).src()
+    return Prog([], defs, dsp)
+
+
+def render(voices, observed, broken=False):
+    """the source text of a version (`broken`: with an injected syntax error)"""
+    src = render_prog(voices, observed).src()
     if broken:
         src = src.replace("fn dsp() {", "fn dsp() { let = ", 1)
     return src
+
+
+def render_sx(voices, observed, broken=False):
+    """the same program as S-expression for the Lean reference semantics (`BROKEN`: does not compile)"""
+    return "BROKEN" if broken else render_prog(voices, observed).sx()
 
 
 def alone(kind):
